@@ -5,13 +5,13 @@ CONSTANTS
   Kinds = {"short"}
   Forms = {"exact"}
   Vias = {"validate"}
-  AdminOps = {"blacklist"}
+  AdminOps = {}
   MaxStarts = 3
-  MaxAdmin = 1
+  MaxAdmin = 0
   MaxCacheOps = 0
   MaxTick = 1
   Impl = "fixed"
-  Depth = 7
+  Depth = 8
   Focus = "tick"
 INVARIANTS Emit
 CHECK_DEADLOCK FALSE
